@@ -558,7 +558,6 @@ pub fn on_paste_styles_area(range: [i32; 4], styles_height: i32, styles_width: i
     }
 {
 //@fragment base/src/user_model/common.rs UserModel::on_paste_styles `let [row1, column1, row2, column2] = range;` .. `return Err("Incorrect row or column".to_string());`
-//@rewrite `let [row1, column1, row2, column2] = range;` => `let (row1, column1, row2, column2) = (range[0], range[1], range[2], range[3]);`
 //@end
     Ok((row_start, column_start, last_row, last_column))
 }
